@@ -120,9 +120,12 @@ def run(ctx: Ctx) -> None:
         "function) and anns() requests (system.state_dims, "
         "system.control_dims); D16.8 CodeGenerator's header, 4-space "
         "indentation at line starts, newline discipline, indent/unindent "
-        "and build(). Not decided: value of the min-ANN minimiser, the "
-        "predefined literature controllers (no formula in the repository "
-        "to compare with).")
+        "and build(); D16.10 every division in a controller / system "
+        "kernel is reached only under a test that excludes a zero divisor "
+        "(by value, path by path - the predefined literature controllers "
+        "return a constant instead of the quotient then). Not decided: "
+        "value of the min-ANN minimiser, the formulas of the predefined "
+        "literature controllers (none in the repository to compare with).")
     ctx.assumptions += [
         "G7: kernel parameters state/params/out are 1-d float arrays",
         "association anchor<->law in partially linear controllers may be "
